@@ -50,7 +50,7 @@ def step (cfg : Cfg) (st : St) : List String → St × String
       | some h => ({ st with hashers := setSlot st.hashers s h.reset }, "ok")
       | none => (st, "bad-op")
     | none => (st, "bad-op")
-  | ["jh", "finreset", slot] =>
+  | ["jh", "finreset", slot] | ["jh", "finreset2", slot] =>
     match slot.toNat? with
     | some s =>
       match getSlot st.hashers s with
